@@ -11,6 +11,12 @@ CHECKS = {
     text="Every history of <=3 (quick) / <=4 (thorough) abstract statements over 3 tables (64k / 2.6M) is folded by the real code and compared with an independent model of edges and source/target/intermediate roles; random 2-8 statement scripts in real SQL are compared with the same model. Complete within the bound, sampled beyond it.",
     ref="DESIGN.md section 4 C03"),
 }
+CHECKS["C15"] = dict(cat="exploration", tech="deterministic baton scheduler over real threads: exhaustive interleaving enumeration (stateless DFS) + Hypothesis random schedules against a per-thread scope-stack model",
+    text="All sub-operation interleavings of all pairs of <=2-operation thread programs are executed with real threads under a scheduler the harness owns, plus pre-emption-bounded 3-operation pairs, random 2-3 thread schedules with thread-identifier reuse, the real singleton end to end, and every documented value form for coercion; after every step every live thread's read of every key is compared with a reference model. Complete within the stated bounds only.",
+    ref="DESIGN.md section 4 C15")
+CHECKS["C17"] = dict(cat="exploration", tech="bounded-exhaustive path enumeration against a scratch tree with marker files; disclosure oracle on WSGI responses",
+    text="Every path of <=4 (quick) / <=5 (thorough) segments over the adversarial segment alphabet, absolute and relative, is sent to every route of the WSGI app; any marker token or directory listing from outside the route's root is a violation. Exhaustive within the bound (1.2M / 20M requests).",
+    ref="DESIGN.md section 4 C17")
 NA = {}
 def main():
     props = [json.loads(l)["id"] for l in open(os.path.join(HOME, "properties.jsonl"))]
